@@ -2,7 +2,11 @@
 
 Case line (kind `a10`), fields separated by `|`:
 
-  a10 | n=<N> [W=1] | F=<k:spec,…> [K=<j:code,…>] | C=<class>;<class>;… | H=<beh,…> | op;op;…
+  a10 | n=<N> [W=1] [B=b|l] | F=<k:spec,…> [K=<j:code,…>] | C=<class>;<class>;… | H=<beh,…> | op;op;…
+
+  B        the owner classes are alive but FALSY: B=b they define `__bool__` returning False, B=l `__len__`
+           returning 0 (an empty container-like model).  Nothing in the statement depends on the owner's truth value;
+           the switch is derived from a checksum of the rest of the line (about one case in three each)
 
   pool     ids 0..N-1 are atoms (0 Uninitialized, 1 Undefined, 2 None, 3.. distinct ints); every other identity is
            allocated by the run (instances, containers) and printed as #k in order of first appearance
@@ -10,7 +14,10 @@ Case line (kind `a10`), fields separated by `|`:
            (fresh empty list, atom a) · r[TVAR] raises TraitError / ValueError / AttributeError / RuntimeError ·
            y<TVAR><a.b> raises when its call ordinal (number of earlier factory calls of the case) is even, otherwise
            returns a fresh list [a, b] (a failing default followed by a successful retry);
-           upper case first letter = built into the trait type (Tuple / Union), not instrumented.
+           upper case first letter = built into the trait type (Tuple / Union), not instrumented ·
+           sl/sd/ss<a.b> (only in `#` cases) returns ONE AND THE SAME list / dict / set on every call (a template
+           object); used as `_name_default` of List / Dict / Set traits, whose validation builds the instance's own
+           TraitListObject / TraitDictObject / TraitSetObject.
            W=1: the run turns UserWarning into an error (the `_warn_on_attribute_error` path)
   K        reusable trait definitions: ONE CTrait object (`Any(...).as_ctrait()`, like a module-level `Trait(0.0)`)
            that the case binds to several names, in several classes, and/or adds to several instances;
@@ -18,6 +25,10 @@ Case line (kind `a10`), fields separated by `|`:
   class    <base index or ->:<name>=<member>[~k][/hK],…  with member
            c<v> Any(atom) · al<a.b> Any([a,b]) · ad<a.b> Any({..}) · L/D/S<a.b> List/Dict/Set(Int) with default ·
            fa<k> Any(factory=F[k]) · T<k> Tuple(List(Int), Int) · U<k> Union(List(Int), None) · o self() ·
+           n<form><cls><a.b> a trait whose default KIND is inferred from the default VALUE, an instance of a list /
+           dict (sub)class: form t = user-defined TraitType with `default_value`, r = Trait(default, list|dict),
+           e = Either(Dict(Int, Int) | List(Int), Str, default=…); cls l list · h user list subclass · m dict ·
+           o OrderedDict · d defaultdict · c Counter · u user dict subclass ·
            v<v> / vl<a.b> / vd<a.b> plain value overriding the inherited trait · i inherited unchanged;
            ~k : the class body defines _name_default = F[k];  /hK : the class body defines _name_changed = handler K
   ops      new k · get i n · set i n v · mut i n x (append / add / setitem on the value read) ·
@@ -26,7 +37,8 @@ Case line (kind `a10`), fields separated by `|`:
            editable_traits()) ·
            only in `#` cases (real code + oracle only): rst i n (reset_traits([name]); it swallows errors) ·
            q2 i (copy.copy, clone_traits, trait_get(**metadata), pickle: they read values) · atn i v (add_trait of a
-           brand-new name) ·
+           brand-new name) · sett i n k (assign the template object of factory k: a List / Dict / Set trait stores
+           its own copy) ·
            rdi i n h (on_trait_change(h, "<name>_items"); only in `#` cases = real code + oracle only: the items
            events of containers belong to the seq/map/set clusters' models)
 
@@ -42,7 +54,10 @@ DRIVER = "TraitsVerif/Driver/Attr.lean"
 PROPS_MODULES = ["TraitsVerif.Props.C10"]
 TRANSLATORS = ["enums"]
 RULE = ("generated class hierarchies over the default-kind grid (constant, Any list/dict copy, List/Dict/Set objects, "
-        "callable-and-args, _name_default, Tuple(List(Int), Int), Union(List(Int), None), Self; subclass overrides by "
+        "callable-and-args, _name_default, Tuple(List(Int), Int), Union(List(Int), None), Self, default kinds inferred "
+        "from a default value that is a list / dict / OrderedDict / defaultdict / Counter / user subclass in a custom "
+        "TraitType, Trait(default, type) and Either(..., default=...); owner classes that are truthy, define __bool__ "
+        "False or __len__ 0; subclass overrides by "
         "value and by trait, own _name_default in a subclass, inherited static handlers), 2-4 instances created "
         "before and after a history of 1-14 operations on one acting instance (reads, assignments, container "
         "mutation, inner-container mutation, on_trait_change / observe / anytrait registration, add_trait) "
@@ -59,7 +74,9 @@ TRUSTED = [
 ]
 ASSUMPTIONS = [
     "default templates hold atoms only (a nested mutable inside an Any([...]) template is shared by the shallow copy, "
-    "as with list(...) itself); user factories return fresh containers or immutable atoms",
+    "as with list(...) itself); user factories return fresh containers or immutable atoms (real code + oracle only: "
+    "a _name_default of a List / Dict / Set trait may hand out one template object, and one container may be assigned "
+    "to several instances: validation builds each instance's own TraitListObject / TraitDictObject / TraitSetObject)",
     "values assigned by the history are atoms; `del` is not part of C10's histories (it re-arms the default)",
     "a failing default computation (factory or validation of its result raises) is outside C10_once",
 ]
@@ -75,7 +92,12 @@ def atoms():
 
 # kind -> (member code, needs factory spec, copy-promising?, mutable?, label)
 def member_kinds():
-    return ["c", "al", "ad", "L", "D", "S", "fa", "fe", "m", "me", "T", "U", "o", "fr", "mr"]
+    return ["c", "al", "ad", "L", "D", "S", "fa", "fe", "m", "me", "T", "U", "o", "fr", "mr", "n", "n"]
+
+
+N_FORMS = "tre"
+N_CLASSES = "lhmodcu"
+N_LISTY = "lh"
 
 
 def mk_member(rng, kind, F):
@@ -110,6 +132,8 @@ def mk_member(rng, kind, F):
         return "U%d" % (len(F) - 1)
     if kind == "o":
         return "o"
+    if kind == "n":
+        return "n" + rng.choice(N_FORMS) + rng.choice(N_CLASSES) + two()
     raise AssertionError(kind)
 
 
@@ -117,16 +141,33 @@ OVERRIDABLE = {"fr": ["v", "vl"], "mr": ["v", "vl"], "c": ["v", "vl", "vd"], "al
                "fe": ["v", "vl"], "m": ["v", "vl"], "me": ["v"], "o": ["v", "vl"]}
 
 
-def mk_case(F, classes, H, ops, W=0, K=(), impl_only=False):
-    return "%sa10|n=%d%s|F=%s%s|C=%s|H=%s|%s" % (
-        "#" if impl_only else "", NATOMS, " W=1" if W else "",
+def falsy_switch(text):
+    """'' / 'b' / 'l' from a checksum of the case text: truthy owners, `__bool__` False, `__len__` 0."""
+    import zlib
+    return ["", "b", "l"][zlib.crc32(text.encode()) % 3]
+
+
+def mk_case(F, classes, H, ops, W=0, K=(), impl_only=False, B=None):
+    rest = "F=%s%s|C=%s|H=%s|%s" % (
         ",".join("%d:%s" % (i, s) for i, s in enumerate(F)) or "-",
         (" K=" + ",".join("%d:%s" % (i, s) for i, s in enumerate(K))) if K else "",
         ";".join(classes), ",".join(H) or "o", ";".join(ops))
+    if B is None:
+        B = falsy_switch(rest)
+    return "%sa10|n=%d%s%s|%s" % ("#" if impl_only else "", NATOMS, " W=1" if W else "", (" B=" + B) if B else "", rest)
 
 
 def corpus():
-    return [
+    import random
+    rng = random.Random(77)
+    tmpl = [template_case(rng, B=B) for B in ("", "b", "l") for _ in range(4)]
+    # default kinds inferred from a container-subclass default value, on truthy and falsy owners
+    inferred = [mk_case([], ["-:0=n%s%s4.5,1=n%s%s" % (f, c, f2, c2)], ["o", "o"],
+                        ["new 0", "new 0", "get 0 0", "mut 0 0 9", "mut 0 1 10", "get 1 0", "get 1 1", "new 0", "get 2 0",
+                         "get 2 1"], B=B)
+                for (f, c, f2, c2, B) in (("t", "o", "r", "d", ""), ("r", "c", "e", "o", "b"), ("r", "h", "t", "u", "l"),
+                                          ("e", "h", "r", "h", ""))]
+    return tmpl + inferred + [
         # one reusable CTrait object bound to two names and used by classes defined before and after; x0 has a
         # _name_default and no static handler: the siblings keep the declared default
         mk_case(["e6"], ["-:0=k0,1=k0", "-:0=k0~0,1=k0", "-:0=k0,1=k0"], ["o"],
@@ -210,7 +251,7 @@ def _random_case(rng):
                 # Tuple/Union holding a list makes list mutations raise from that stale items trait: not C10's topic)
                 ks = [x for x in member_kinds() if not (k in ("L", "D", "S") and x in ("T", "U"))]
                 d = "%d=%s" % (n, mk_member(rng, rng.choice(ks), F))
-            elif r < 0.62 and k not in ("T", "U", "L", "D", "S", "o"):
+            elif r < 0.62 and k not in ("T", "U", "L", "D", "S", "o", "n"):
                 F.append(rng.choice(["f4", "f", "e5"]))
                 d = "%d=i~%d" % (n, len(F) - 1)
             else:
@@ -435,13 +476,61 @@ def query_case(rng, impl_only=False):
     return mk_case(F, classes, ["o", "o"], ops, impl_only=impl_only)
 
 
+def template_case(rng, B=None):
+    """Real code + oracle only: the `_name_default` of a List / Dict / Set trait hands out ONE template object to
+    every instance, and one container is assigned to a List / Dict / Set trait of two instances; validation
+    builds each instance's own TraitListObject / TraitDictObject / TraitSetObject, so mutations stay on the
+    instance (and reach its own <name>_items handler), on truthy and on falsy owners."""
+    kind = rng.choice("LDS")
+    t = {"L": "l", "D": "d", "S": "s"}[kind]
+    two = lambda: ".".join(str(x) for x in rng.sample(range(3, 9), rng.randint(0, 2)))     # noqa: E731
+    F = ["s%s%s" % (t, two()), "s%s%s" % (t, two())]
+    classes = ["-:0=%s%s~0%s,1=%s%s" % (kind, two(), "/h0" if rng.random() < 0.3 else "", kind, two())]
+    if rng.random() < 0.3:
+        classes.append("0:0=i,1=i")
+    top = len(classes) - 1
+    ops = ["new %d" % top, "new %d" % top]
+    atoms = list(range(9, NATOMS))
+    rng.shuffle(atoms)
+    if rng.random() < 0.5:
+        ops.append("get 1 0")
+    if rng.random() < 0.4:
+        ops.append("rdi 0 %d 1" % rng.randrange(2))
+    for _ in range(rng.randint(1, 6)):
+        r = rng.random()
+        if r < 0.35:
+            ops.append("mut 0 0 %d" % atoms.pop())
+        elif r < 0.5:
+            ops.append("get 0 0")
+        elif r < 0.65:
+            ops.append("sett 0 1 1")
+        elif r < 0.8:
+            ops.append("mut 0 1 %d" % atoms.pop())
+        elif r < 0.9:
+            ops.append("get 1 %d" % rng.randrange(2))
+        else:
+            ops.append("rd 0 0 1")
+    if rng.random() < 0.35:
+        # the same container assigned to a second instance as well (two acting instances: direct clauses only)
+        ops += ["sett 0 1 1", "sett 1 1 1", "mut 0 1 %d" % atoms.pop(), "get 1 1"]
+    ops += ["get 1 0", "get 1 1", "new %d" % top, "get 2 0", "get 2 1"]
+    if B is None:
+        B = rng.choice(["", "b", "l"])
+    return mk_case(F, classes, ["o", "o"], ops, impl_only=True, B=B)
+
+
 def exhaustive():
     """Every default kind (also overridden by value / re-declared with _name_default in a subclass) x every kind
     of operation on the acting instance, with a sibling created before and one after."""
     import random
     rng = random.Random(12345)
     shapes = []
-    for k in member_kinds():
+    for form in N_FORMS:
+        for cls in N_CLASSES:
+            shapes.append(([], ["-:0=n%s%s4.5/h0" % (form, cls)], "n"))
+            if form == "t":
+                shapes.append(([], ["-:0=n%s%s4.5" % (form, cls), "0:0=i,1=c2"], "n+i"))
+    for k in member_kinds()[:-2]:
         F = []
         m = mk_member(rng, k, F)
         shapes.append((F, ["-:0=%s/h0" % m], k))
@@ -449,7 +538,7 @@ def exhaustive():
             F2 = list(F)
             code = "v4" if ov == "v" else ov + "4.5"
             shapes.append((F2, ["-:0=%s/h0" % m, "0:0=%s" % code], k + "+" + ov))
-        if k not in ("T", "U", "L", "D", "S", "o"):
+        if k not in ("T", "U", "L", "D", "S", "o", "n"):
             F3 = list(F) + ["f5"]
             shapes.append((F3, ["-:0=%s" % m, "0:0=i~%d" % (len(F3) - 1)], k + "+~"))
     for cls in "TVAR":
@@ -459,11 +548,15 @@ def exhaustive():
     acts = [["get A 0"], ["get A 0", "get A 0", "get A 0"], ["mut A 0 9"], ["mui A 0 9"], ["set A 0 4"], ["rd A 0 1", "get A 0"], ["ro A 0 1", "set A 0 5"],
             ["ra A 1", "get A 0"], ["at A 0 c5", "get A 0"], ["get A 0", "mut A 0 9", "mut A 0 10", "get A 0"],
             ["rd A 0 1", "set A 0 4", "mut A 0 9"]]
-    for F, classes, _ in shapes:
+    for F, classes, lab in shapes:
         top = len(classes) - 1
         for act in acts:
             ops = ["new %d" % top, "new %d" % top] + [a.replace("A", "0") for a in act] + \
                   ["get 1 0", "new %d" % top, "get 2 0", "get 1 0"]
+            if lab.startswith("n"):
+                for B in ("", "b", "l"):        # inferred default kinds: on truthy and on both falsy owners
+                    yield mk_case(F, classes, ["o", "o"], ops, B=B)
+                continue
             yield mk_case(F, classes, ["o", "o"], ops)
             if F and F[0][:2] in ("rA", "yA"):
                 yield mk_case(F, classes, ["o", "o"], ops, W=1)
@@ -486,6 +579,8 @@ def generate(rng, tier):
         yield query_case(rng)
     for _ in range(max(30, n // 60)):
         yield query_case(rng, impl_only=True)
+    for _ in range(max(90, n // 12)):
+        yield template_case(rng)
     for _ in range(max(60, n // 15)):
         yield scenario_case(rng, "A")
     for _ in range(max(60, n // 15)):
@@ -509,6 +604,8 @@ class Run:
         hdr = A.kv(f[1])
         self.N = int(hdr["n"])
         self.W = hdr.get("W") == "1"
+        self.falsy = hdr.get("B", "")
+        self.templates = {}       # factory index -> the one object an `s…` factory hands out
         self.fraised = []         # (global ordinal, exception class name) of factory calls that raised
         fk = A.kv(f[2])
         self.F = [] if fk["F"] == "-" else [e.split(":", 1)[1] for e in fk["F"].split(",")]
@@ -531,9 +628,19 @@ class Run:
         self.slot_after = []      # per op: what is stored under the op's name afterwards
 
     # ----- factories, handlers
-    def result_of(self, spec):
+    def template(self, k):
+        if k not in self.templates:
+            spec = self.F[k]
+            xs = [self.A[int(x)] for x in spec[2:].split(".") if x != ""]
+            self.templates[k] = (xs if spec[1] == "l" else set(xs) if spec[1] == "s"
+                                 else {100 + i: v for i, v in enumerate(xs)})
+        return self.templates[k]
+
+    def result_of(self, spec, k=None):
         from traits.api import TraitError
         c = spec[0].lower()
+        if c == "s":
+            return self.template(k)
         n = len(self.fcalls) - 1          # ordinal of this call (the call was recorded just before)
         if c in ("r", "y"):
             cls = {"T": TraitError, "V": ValueError, "A": AttributeError, "R": RuntimeError}.get(spec[1:2], RuntimeError)
@@ -554,14 +661,14 @@ class Run:
         def f():
             self.fcalls.append(k)
             self.fattr.append((k,) + (self.cur or (None, None)) + (self.epoch.get(self.cur, 0),))
-            return self.result_of(self.F[k])
+            return self.result_of(self.F[k], k)
         return f
 
     def default_method(self, k, name):
         def m(obj):
             self.fcalls.append(k)
             self.fattr.append((k,) + (self.cur or (None, None)) + (self.epoch.get(self.cur, 0),))
-            return self.result_of(self.F[k])
+            return self.result_of(self.F[k], k)
         m.__name__ = "_%s_default" % name
         return m
 
@@ -615,6 +722,8 @@ class Run:
             return self.shared[int(code[1:])]
         if code == "o":
             return self_trait()
+        if code[0] == "n":
+            return self.inferred_member(code[1], code[2], xs(code[3:]))
         if code.startswith("al"):
             return Any(xs(code[2:]))
         if code.startswith("ad"):
@@ -640,6 +749,51 @@ class Run:
         if code[0] == "U":
             return Union(List(Int), None)
         raise AssertionError(code)
+
+    def inferred_member(self, form, cls, items):
+        """A trait whose default kind is inferred from the default value (see the module docstring)."""
+        import collections
+        from traits.api import Dict, Either, Int, List, Str, Trait, TraitType
+
+        class History(list):
+            def last(self):
+                return self[-1] if self else None
+
+        class Registry(dict):
+            def names(self):
+                return sorted(self)
+        pairs = [(100 + i, v) for i, v in enumerate(items)]
+        if cls == "l":
+            dv = list(items)
+        elif cls == "h":
+            dv = History(items)
+        elif cls == "m":
+            dv = dict(pairs)
+        elif cls == "o":
+            dv = collections.OrderedDict(pairs)
+        elif cls == "d":
+            dv = collections.defaultdict(list, pairs)
+        elif cls == "c":
+            dv = collections.Counter(dict(pairs))
+        elif cls == "u":
+            dv = Registry(pairs)
+        else:
+            raise AssertionError(cls)
+        base = list if cls in N_LISTY else dict
+        self.keep.append(dv)
+        if form == "t":
+            def validate(self_, object, name, value):
+                if isinstance(value, base):
+                    return value
+                self_.error(object, name, value)
+            Custom = type("Custom", (TraitType,), {"default_value": dv, "info_text": "a " + base.__name__,
+                                                    "validate": validate})
+            return Custom()
+        if form == "r":
+            return Trait(dv, base)
+        if form == "e":
+            return Either(List(Int) if base is list else Dict(Int, Int), Str, default=dv)
+        raise AssertionError(form)
 
     def build_classes(self):
         from traits.api import HasTraits
@@ -667,6 +821,10 @@ class Run:
                     ns["_%s_changed" % name] = self.static(int(hs))
                 if name not in names:
                     names.append(name)
+            if bs == "-" and self.falsy == "b":
+                ns["__bool__"] = lambda self_: False
+            elif bs == "-" and self.falsy == "l":
+                ns["__len__"] = lambda self_: 0
             with warnings.catch_warnings():
                 warnings.simplefilter("ignore")
                 self.classes.append(type("K%d" % len(self.classes), (base,), ns))
@@ -786,6 +944,8 @@ class Run:
                                 val = getattr(o, name)
                             elif k == "set":
                                 setattr(o, name, self.A[int(op[3])])
+                            elif k == "sett":
+                                setattr(o, name, self.template(int(op[3])))
                             elif k == "mut":
                                 read = getattr(o, name)
                                 read_struct = structure(self, read)
@@ -904,6 +1064,8 @@ def spec_structure(spec):
         return _seq("seq", ["p" + x for x in xs])
     if c == "t":
         return _seq("seq", ["p" + xs[0], "seq[]"])
+    if c == "s":
+        return _seq({"l": "seq", "d": "dict", "s": "set"}[spec[1]], ["p" + x for x in spec[2:].split(".") if x != ""])
     return None
 
 
@@ -912,6 +1074,8 @@ def member_structure(run, code, inst):
     xs = lambda t: ["p" + x for x in t.split(".") if x != ""]     # noqa: E731
     if code == "o":
         return "inst%d" % inst
+    if code[0] == "n":
+        return _seq("seq" if code[2] in N_LISTY else "dict", xs(code[3:]))
     if code.startswith("al") or code.startswith("vl"):
         return _seq("seq", xs(code[2:]))
     if code.startswith("ad") or code.startswith("vd"):
@@ -978,6 +1142,10 @@ def kind_of(run, ci, name):
         code0 = code.split("~")[0]
         if "~" in code:
             return "_name_default"
+        if code0[0] == "n":
+            return "inferred-%s-%s" % ({"t": "TraitType", "r": "Trait()", "e": "Either"}[code0[1]],
+                                       {"l": "list", "h": "list-subclass", "m": "dict", "o": "OrderedDict",
+                                        "d": "defaultdict", "c": "Counter", "u": "dict-subclass"}[code0[2]])
         for p, l in (("al", "list-of-Any"), ("ad", "dict-of-Any"), ("fa", "factory"), ("vl", "list"), ("vd", "dict")):
             if code0.startswith(p):
                 return l
@@ -1049,7 +1217,8 @@ def scenario_case(rng, scn):
                 ops.append("get %d %s" % (rng.choice(others), rng.choice(A_ATTRS[:4])))
         for c in cfgs[early:]:
             ops.append("new %d" % c)
-        return "#a10x|A|-|" + ";".join(ops)
+        body = ";".join(ops)
+        return "#a10x|A|-%s|" % ("/" + falsy_switch(body) if falsy_switch(body) else "") + body
     base = rng.randrange(len(B_BASES)) if rng.random() < 0.5 else 0
     ninst = rng.randint(2, 3)
     for _ in range(ninst):
@@ -1075,11 +1244,13 @@ def scenario_case(rng, scn):
             ops.append("mut %d %s" % (rng.choice(others), nm))
     if rng.random() < 0.5:
         ops.append("new")
-    return "#a10x|B|%d|" % base + ";".join(ops)
+    body = ";".join(ops)
+    return "#a10x|B|%d%s|" % (base, "/" + falsy_switch(body) if falsy_switch(body) else "") + body
 
 
 class Scenario:
     def __init__(self, scn, param, ops):
+        param, _, self.falsy = param.partition("/")      # owner classes that are alive but falsy (see `B=`)
         self.scn, self.param, self.ops = scn, param, ops
         self.objs = []
         self.calls = []          # (object, handler id)
@@ -1128,6 +1299,10 @@ class Scenario:
                 raw = T.Instance(list, ())
                 both = T.Union(T.Set(T.Int), T.List(T.Int))
             self.cls = Store
+        if self.falsy == "b":
+            self.cls.__bool__ = lambda self_: False
+        elif self.falsy == "l":
+            self.cls.__len__ = lambda self_: 0
 
     def new(self, arg=None):
         if self.scn == "A":
@@ -1235,7 +1410,8 @@ def run_scenario(case):
     f = case.lstrip("#").split("|")
     scn, param = f[1], f[2]
     ops = [o.split() for o in f[3].split(";") if o.strip()]
-    tags = {"scenario:" + scn + (":" + B_BASES[int(param)] if scn == "B" else "")}
+    tags = {"scenario:" + scn + (":" + B_BASES[int(param.partition("/")[0])] if scn == "B" else ""),
+            "scenario-owner:" + {"": "truthy", "b": "falsy-__bool__", "l": "falsy-__len__"}[param.partition("/")[2]]}
     for o in ops:
         tags.add("scn-op:" + o[0])
     hits = []
@@ -1310,6 +1486,9 @@ def run_impl(case):
     actors = {int(o[1]) for o in ops if o[0] not in ("new", "get")}
     for o in ops:
         tags.add("op:" + o[0])
+    tags.add("owner:" + {"": "truthy", "b": "falsy-__bool__", "l": "falsy-__len__"}[real.falsy])
+    if real.falsy and any(bool(o) for o, _ in real.objs):
+        raise AssertionError("the owner instances of a B= case must be falsy")
     for spec in real.class_specs:
         for d in spec.split(":", 1)[1].split(","):
             code = d.split("=", 1)[1].split("/h")[0]
@@ -1332,8 +1511,30 @@ def run_impl(case):
                                  c, i, n, " after its reset number %d" % ep if ep else "")))
     assigned = set()
     added = {}              # (instance, name index) -> member code added with add_trait
+    items_reg = {}          # (instance, name index) -> handler registered for <name>_items
     for opi, (op, exc, val, dlog, dfc) in enumerate(real.per_op):
         k = op[0]
+        if k == "rdi" and exc is None:
+            items_reg[(int(op[1]), int(op[2]))] = int(op[3])
+        if k == "mut" and exc is None and (int(op[1]), int(op[2])) in items_reg:
+            # a List / Dict / Set value reports its item changes to its own instance
+            from traits.api import Dict as _D, List as _L, Set as _S
+            i, n = int(op[1]), int(op[2])
+            o_, ci_ = real.objs[i]
+            if isinstance(o_.trait("x%d" % n).handler, (_L, _D, _S)):
+                tags.add("items-event-expected")
+                if not any(ob is o_ and h == items_reg[(i, n)] for ob, h, _, _ in dlog):
+                    hits.append(_hit("items-event-missing:" + kind_of(real, ci_, "x%d" % n),
+                                     "mutating the container of x%d on instance %d did not reach the handler registered "
+                                     "for x%d_items on that instance" % (n, i, n)))
+        if k == "sett":
+            key = (int(op[1]), int(op[2]))
+            assigned.discard(key)
+            first_val.pop(key, None)
+            tags.add("template-assigned")
+            if exc is None and real.slot_after[opi] is not A:
+                first_val[key] = real.slot_after[opi]
+            continue
         if k in ("set", "at"):
             if k == "set":
                 assigned.add((int(op[1]), int(op[2])))
@@ -1373,9 +1574,12 @@ def run_impl(case):
                         hits.append(_hit("first-read-not-declared-default:" + lab,
                                          "first read of x%d on instance %d returned %s, the declared default is %s" % (
                                              key[1], key[0], got_s, want)))
-                if dlog:
+                # (the items event of the mutation that follows the read, heard by the instance's own
+                # <name>_items handler, is not a notification of the read)
+                dl = [e for e in dlog if not (k == "mut" and key in items_reg and e[1] == items_reg[key])]
+                if dl:
                     hits.append(_hit("default-read-notified:" + lab, "first read of a default reached a handler",
-                                     calls=len(dlog)))
+                                     calls=len(dl)))
             elif key in first_val and key not in assigned:
                 if val is not first_val[key]:
                     hits.append(_hit("default-not-stable:" + lab, "a later read returned a different object"))
@@ -1420,6 +1624,13 @@ def run_impl(case):
             hits.append(_hit("raising-default:notified:" + cls, "a handler was called although the default factory raised"))
     # ---- freshness: containers reachable from two instances' (never assigned) values are disjoint
     owner = {}
+    for k_, t_ in real.templates.items():
+        # what a `_name_default` handed out / what was assigned to several instances stays the user's object
+        owner[id(t_)] = (-1, "template of factory %d" % k_)
+        tags.add("template-default")
+        if structure(real, t_) != spec_structure(real.F[k_]):
+            hits.append(_hit("template-object-changed", "the object handed out by factory %d (%s) was changed by "
+                             "operations on instance values: now %s" % (k_, real.F[k_], structure(real, t_))))
     for idx, (o, ci) in enumerate(real.objs):
         for nm in real.names[ci]:
             n = int(nm[1:])
@@ -1431,8 +1642,10 @@ def run_impl(case):
                 if prev is not None and prev[0] != idx:
                     lab = kind_of(real, ci, nm)
                     hits.append(_hit("shared-default:" + lab,
-                                     "instances %d and %d share a mutable default object (attribute %s)" % (prev[0], idx, nm),
-                                     no_shrink=False))
+                                     ("instances %d and %d share a mutable default object (attribute %s)" % (
+                                         prev[0], idx, nm)) if prev[0] >= 0 else
+                                     ("instance %d holds the %s itself, not its own container (attribute %s)" % (
+                                         idx, prev[1], nm)), no_shrink=False))
                 owner.setdefault(id(c), (idx, nm))
     # ---- non-interference: twin run without the acting instance's operations
     if any(sp[0] == "y" for sp in real.F):
